@@ -118,6 +118,11 @@ inline std::uint64_t ref_find_invalid_handshake_nonce(const en::PeerId& initiato
     for (std::uint64_t n = start;; ++n) if (!ref_handshake_pow_ok(initiator, responder, pub, n, difficulty)) return n;
 }
 
+// a nonce whose digest has exactly `difficulty - 1` leading zero bits: the nearest possible miss (difficulty >= 1)
+inline std::uint64_t ref_find_near_miss_handshake_nonce(const en::PeerId& initiator, const en::PeerId& responder, std::uint32_t pub, int difficulty, std::uint64_t start = 11) {
+    for (std::uint64_t n = start;; ++n) if (leading_zero_bits(ref_handshake_digest(initiator, responder, pub, n)) == difficulty - 1) return n;
+}
+
 inline std::array<std::uint8_t, 32> ref_session_key(std::uint32_t my_scalar, std::uint32_t my_public, std::uint32_t remote_public) {
     const auto shared = en::network::KeyExchange::derive_shared_secret(my_scalar, remote_public);
     std::uint32_t lo = std::min(my_public, remote_public), hi = std::max(my_public, remote_public);
@@ -142,6 +147,10 @@ inline bool ref_announce_pow_ok(const en::protocol::AnnouncePayload& a, int diff
 }
 inline void ref_solve_announce_pow(en::protocol::AnnouncePayload& a, int difficulty, bool valid = true) {
     for (a.work_nonce = 1;; ++a.work_nonce) if (ref_announce_pow_ok(a, difficulty) == valid) return;
+}
+// exactly `difficulty - 1` leading zero bits (difficulty >= 1)
+inline void ref_near_miss_announce_pow(en::protocol::AnnouncePayload& a, int difficulty) {
+    for (a.work_nonce = 1;; ++a.work_nonce) if (leading_zero_bits(ref_announce_digest(a)) == difficulty - 1) return;
 }
 
 // ---------------------------------------------------------------- scripted transport peer
